@@ -528,6 +528,23 @@ def run_routes(case):
   return routes_agree(case[0], f, spec, canon)
 
 
+def gen_types(run):
+  from ..routes import struct_params
+  try:
+    T = route_table()
+  except Exception:
+    T = {}
+  for name, ent in T.items():
+    if struct_params(ent[1]):
+      yield (name,)
+
+
+def run_types(case):
+  from ..routes import struct_params, types_agree
+  ent = route_table()[case[0]]
+  return types_agree(case[0], ent[0], ent[1], ent[2], struct_params(ent[1]))
+
+
 KINDS = OrderedDict([
   ("bfs", Kind(None, run_bfs, chunk=16,
                rule="one case = one merged mixer state (its shortest history); every operation applied from it")),
@@ -540,6 +557,8 @@ KINDS = OrderedDict([
                    rule="all words over {assign a, assign b, read}; non-trivial: >=1 assignment and >=1 read")),
   ("call-routes", Kind(gen_routes, run_routes, chunk=1,
                        rule="each function with every documented parameter set: all positional / all keyword / every split must agree")),
+  ("param-types", Kind(gen_types, run_types, chunk=1,
+                       rule="structural integer parameters given as integral float / Fraction / bool: same result wherever the type is accepted")),
 ])
 
 
